@@ -2990,6 +2990,19 @@ static TSQueryError ts_query__parse_pattern(
       repeat_step.alternative_index = starting_step_index;
       repeat_step.is_pass_through = true;
       array_push(&self->steps, repeat_step);
+
+      // If the repeated pattern can itself match nothing (`((a)?)+`), the skip link of
+      // its last alternative lands on `repeat_step`, whose link leads back to the start:
+      // a cycle that consumes no node, on which the analysis and the cursor never
+      // terminate. Repeating an empty match adds nothing, so let that skip link land
+      // behind `repeat_step`, exactly as the `*` case below does.
+      step = array_get(&self->steps, starting_step_index);
+      while (step->alternative_index != NONE && step->alternative_index < self->steps.size - 1) {
+        step = array_get(&self->steps, step->alternative_index);
+      }
+      if (step->alternative_index == self->steps.size - 1) {
+        step->alternative_index = self->steps.size;
+      }
       break;
     case TSQuantifierZeroOrMore:
       repeat_step = query_step__new(WILDCARD_SYMBOL, depth, false);
